@@ -159,7 +159,7 @@ def long_run(ctx, rng, tk):
 def end_to_end_params(ctx, rng, xr):
     """The thresholds given to spec.partition.ptm1_track must be the ones used: a slowly varying sea
     state keeps its identifiers under the defaults, and with a threshold made prohibitive (source
-    distance 1e12 m, direction windows 1e-6 deg, sea scaling such that no drop is allowed) the whole
+    distance 1e12 m, direction windows 1e-3 deg, sea scaling such that no drop is allowed) the whole
     output history must still satisfy the continuity rule recomputed with *those* thresholds."""
     from vf import gen
     rec = ctx.rec
@@ -167,15 +167,16 @@ def end_to_end_params(ctx, rng, xr):
     th = np.arange(0, 360, 30.0)
     T = int(rng.integers(3, 6))
     base = gen.spectrum(rng, f, th, "multimodal")[0]
-    A = np.array([base * (1 + 0.01 * k) for k in range(T)])
+    # slowly varying: each step a little more of the spectrum turned by one bin (mean directions drift by ~0.1-1 deg)
+    A = np.array([(1 - 0.02 * k) * base * (1 + 0.01 * k) + 0.02 * k * np.roll(base, 1, axis=1) for k in range(T)])
     da = gen.make_da(A, f, th, ["time"], [T])
     co = {"time": da.time}
     w = xr.DataArray(np.full(T, 3.0), dims=["time"], coords=co)
     wd = xr.DataArray(np.full(T, 10.0), dims=["time"], coords=co)
     dp = xr.DataArray(np.full(T, 50.0), dims=["time"], coords=co)
     which = str(rng.choice(["dfp_swell_source_distance", "ddpm_swell_max", "ddpm_sea_max", "defaults"]))
-    kw = {"dfp_swell_source_distance": {"dfp_swell_source_distance": 1e12}, "ddpm_swell_max": {"ddpm_swell_max": 1e-6},
-          "ddpm_sea_max": {"ddpm_sea_max": 1e-6, "ddpm_swell_max": 1e-6}, "defaults": {}}[which]
+    kw = {"dfp_swell_source_distance": {"dfp_swell_source_distance": 1e12}, "ddpm_swell_max": {"ddpm_swell_max": 1e-3},
+          "ddpm_sea_max": {"ddpm_sea_max": 1e-3, "ddpm_swell_max": 1e-3}, "defaults": {}}[which]
     key = "ptm1_track|" + which
     try:
         out = da.spec.partition.ptm1_track(w, wd, dp, swells=3, **kw).compute()
@@ -185,7 +186,7 @@ def end_to_end_params(ctx, rng, xr):
         dpm = stats["dpm"].transpose("part", "time").values.astype("float64")
         prob, amb = TR.check(fp, dpm, w.values, 3600.0, ids, int(out["npart_id"].values),
                              ddpm_sea_max=kw.get("ddpm_sea_max", 30), ddpm_swell_max=kw.get("ddpm_swell_max", 20),
-                             distance=kw.get("dfp_swell_source_distance", 1e6))
+                             distance=kw.get("dfp_swell_source_distance", 1e6), dd_noise=2e-4, df_noise=1e-7)
         carried = int(sum(len(set(ids[:, t][ids[:, t] >= 0]) & set(ids[:, t - 1][ids[:, t - 1] >= 0])) for t in range(1, T)))
         if which == "defaults":
             rec.note("ptm1_track_identifiers_carried_under_defaults", carried)
@@ -216,7 +217,7 @@ def end_to_end(ctx, rng, xr):
         stats = out["efth"].spec.stats(["fp", "dpm"]).compute()
         fp = stats["fp"].transpose("part", "time").values.astype("float64")
         dpm = stats["dpm"].transpose("part", "time").values.astype("float64")
-        prob, amb = TR.check(fp, dpm, w.values, 3600.0, ids, int(out["npart_id"].values))
+        prob, amb = TR.check(fp, dpm, w.values, 3600.0, ids, int(out["npart_id"].values), dd_noise=2e-4, df_noise=1e-7)
         if prob is None or amb:
             rec.ok("ptm1_track", "T=%d" % T)
         else:
